@@ -93,6 +93,17 @@ def all_jobs():
         J.append(dict(id='capi_' + fn, src='blocc/bloc_capi.cpp', contract='capi_array.c', enforce=fn, roots=[fn], replace=[], cut=[RTE_CTOR, RTE_CTOR_S],
                       props=['C01', 'C15'], pretty=fn, canaries=['normal'],
                       structs=DEFAULT_STRUCTS + [STD_STRING, VEC_CHAR, 'bloc::Error', 'bloc::Collection', 'bloc::Expression']))
+    STOREV = '_ZN4bloc7Context13storeVariableEjONS_5ValueE'
+    for fn, df, rep, cut in (('bloc_ctx_store_variable', 'JOB_STORE', [], [STOREV]), ('bloc_ctx_load_variable', 'JOB_LOAD', [], []), ('bloc_evaluate_expression', 'JOB_EVAL', [VCALL_VALUE], [VCALL_VALUE]),
+                             ('bloc_drop_returned', 'JOB_DROP', [], ['_ZN4bloc7Context12dropReturnedEv']), ('bloc_free_value', 'JOB_FREE', [], [V_CLEAR]), ('bloc_create_literal', 'JOB_CREATE_LITERAL', ['_ZN4bloc5ValueC1EPNSt7__cxx1112basic_stringIcSt11char_traitsIcESaIcEEE'], ['_ZN4bloc5ValueC1EPNSt7__cxx1112basic_stringIcSt11char_traitsIcESaIcEEE']),
+                             ('bloc_expression_type', 'JOB_EXPR_TYPE', ['VCALL_Expression_type'], ['VCALL_Expression_type']),
+                             ('bloc_parse_executable', 'JOB_PARSE_EXEC', [], ['_ZN4bloc6Parser5parseERNS_7ContextERNS0_12StreamReaderEb', '_ZN4bloc12StringReaderC1EPKc', '_ZN4bloc12StringReaderC2EPKc', '_ZN4bloc12StringReaderD1Ev', '_ZN4bloc12StringReaderD2Ev']),
+                             ('bloc_execute', 'JOB_EXECUTE', [], ['_ZN4bloc10Executable3runEv']), ('bloc_tuple_size', 'JOB_TUPLE', [], []), ('bloc_tuple_item', 'JOB_TUPLE', [], [])):
+        J.append(dict(id='capi_' + fn, src='blocc/bloc_capi.cpp', contract='capi_ctx.c', enforce=fn, roots=[fn], replace=rep, cut=cut + [RTE_CTOR, RTE_CTOR_S], defines=[df],
+                      props=['C01', 'C15'], pretty=fn, canaries=['normal'], structs=DEFAULT_STRUCTS + [STD_STRING, VEC_CHAR, 'bloc::Error', 'bloc_type', 'bloc_pair', 'bloc::Context', 'bloc::Symbol', 'bloc::Context::MemorySlot', 'bloc::Expression', 'bloc::Executable', 'bloc::Token', 'bloc::ParseError', 'bloc::Tuple', 'bloc_parsing_position']))
+    mg = '_ZN4bloc7Context12dropReturnedEv'
+    J.append(dict(id='ctx_dropReturned', src='blocc/context.cpp', contract='capi_ctx.c', enforce=mg, roots=[mg], replace=[], cut=[RTE_CTOR, RTE_CTOR_S], defines=['JOB_CTX_DROP'],
+                  props=['C01', 'C15', 'C17'], pretty='bloc::Context::dropReturned', canaries=['normal'], structs=DEFAULT_STRUCTS + [STD_STRING, VEC_CHAR, 'bloc::Context']))
     V_CTOR_LIT_ = '_ZN4bloc5ValueC1EPNSt7__cxx1112basic_stringIcSt11char_traitsIcESaIcEEE'
     for fn in ('bloc_assign_literal',):
         J.append(dict(id='capi_' + fn, src='blocc/bloc_capi.cpp', contract='capi_assign.c', enforce=fn, roots=[fn], replace=['_ZN4bloc5Value4swapEOS0_', V_CLEAR, V_CTOR_LIT_, V_MOVE_ASSIGN, V_MOVE_CTOR], cut=[RTE_CTOR, RTE_CTOR_S, '_ZN4bloc5Value4swapEOS0_', V_CLEAR, V_CTOR_LIT_, V_MOVE_ASSIGN, V_MOVE_CTOR],
